@@ -130,6 +130,11 @@ def run(ctx, out, tier):
                         continue   # unit variant
                     if re.search(r"::Iter<|::IntoIter<|JoinSet|std::task::Context|ResumeTy|^\(\)$", loc["ty"]) or loc["name"] in ("iter", "_task_context"):
                         continue
+                    # the work list of pending detectors: it only ever shrinks to the detectors that
+                    # have not fired yet (C14.once decides that discipline); which validators get
+                    # created does not depend on the order, only when
+                    if "dyn blockwatch::validators::ValidatorDetector" in loc["ty"]:
+                        continue
                     labs = ctx.prov.read_place(b, s["lhs"])
                     out.viol("C20.lastwins", "C20.lastwins|%s|%s" % (b.id, loc["name"]), ctx.where(b, s["span"]),
                              "variable `%s` is declared outside a loop over an unordered source and overwritten inside it with a loop-dependent value: the last writer depends on the iteration order" % loc["name"])
